@@ -54,14 +54,14 @@ def two_writer_cases(out=None):
     return cases, impl
 
 
-def close_cases(out=None):
-    """the single-writer programs of the hook in which the stream is closed under the writer (a 'D' thread) ->
+def close_cases(out=None, thread="D"):
+    """the single-writer programs of the hook with a close thread ('D') / an acknowledge thread ('K') ->
     (cases for model 12, implementation outcome sets in the model's encoding)"""
     res, _, _ = loom_outcomes()
     cases, impl = [], []
     for key in sorted(res):
         name, outs = res[key]
-        if "D" not in name.split("|"):
+        if thread not in name.split("|"):
             continue
         cases.append("12 %d %d %d %d" % key)
         impl.append(" ".join(str(x) for o in sorted(outs) for x in o))
